@@ -145,8 +145,10 @@ def run_all(proc, dom_kwargs=None, **kw):
     return out
 
 
+# alloc_size (extent < 1) is recorded by the interpreter but is not among the things the
+# properties name, so it is not a safety violation here
 SAFETY_KINDS = ("oob", "oob_base", "call_pred", "call_size", "call_shape", "call_dense",
-                "alias", "neg_loop", "alloc_size", "div0")
+                "alias", "neg_loop", "div0")
 
 
 def compare_runs(rp, rq, exempt_cfg=()):
